@@ -57,7 +57,7 @@ def Table.find (t : Table) (key : String) : Idiom :=
 
 /-- does the method write through the receiver's slice (`<method>/w<n>` rows)? -/
 def Table.writesInPlace (t : Table) (method : String) : Bool :=
-  t.any (fun r => r.2 == .inPlace && r.1.startsWith (method ++ "/w"))
+  t.any (fun r => r.2 == .inPlace && ["/w0", "/w1", "/w2", "/w3"].any (fun w => r.1 == method ++ w))
 
 structure Slice where
   arr : Nat
